@@ -7,12 +7,12 @@ CONSTANTS
   Pres <- P0
   Variant = "coded"
   Sys = "ens"
-  N = 4
+  N = 3
   Energies <- E2
   Gens = 2
-  Ks <- K1
+  Ks <- K12
   Modes <- Both
-  MaxRun = 4
+  MaxRun = 3
   Consume = "index"
   Scan = "index"
   Cmp = "le"
